@@ -31,7 +31,7 @@ TEXT = {
               'worklist exit-condition rule + def-use of the limit'),
     'C10': _t('Decides: twins of the normal forms deep-copy and call the in-place sibling; pda_to_cfg does not touch its argument. Not decided: language equality.',
               'twin-pairing rule + effect summaries'),
-    'C11': _t('Decides: head sign (left clamped at 0), missing-transition default, blank extension; verdict loop and trace loop agree; step precondition at every call incl. the first; verdicts only on halting states; same budget. Counter abstraction: for budgets 0..3 a never-halting machine is run for exactly max_steps steps on every path of both loops. Not decided: step-by-step agreement with delta.',
+    'C11': _t('Decides: head sign (left clamped at 0), missing-transition default, blank extension; verdict loop and trace loop agree; step precondition at every call incl. the first; verdicts only on halting states; same budget. Counter model of both loops: budgets 0..3 x (never halts | accepts/rejects after 0..3 steps) x word length 0/2: steps = min(j,k), no step in a halting state, right verdict, trace length, initial tape. Not decided: step-by-step agreement with delta.',
               'extracted head-update model evaluated in the analyser + must-hold dataflow for the step precondition + sibling skeleton comparison'),
     'C12': _t('Decides: K1 no recorded feedback is dropped, K2 OK exclusivity, K3 handlers report, K4 answer/reference roles and message polarity, K5 minimal counterexample, K6 same bound, K7 state-limit polarity. K6 also: a bounded comparison called without its bound while the checker has one; K8: answer rows compared position-wise need a row-count comparison; builder state sets are images of the declared ones. Not decided: completeness of each structural criterion.',
               'CFG reachability/kill analysis of feedback accumulators + role taint from notebook templates + extracted integer model'),
